@@ -133,7 +133,7 @@ def _configs(tier):
                     continue
                 cfg.append({"kind": "euclid", "dim": dim, "mkind": mkind, "convention": conv})
                 cfg.append({"kind": "gauss", "dim": dim, "mkind": mkind, "convention": conv})
-    for mkind in (("identity", "diag", "dense") if tier == "thorough" else ("identity", "diag")):
+    for mkind in (("identity", "scaled", "diag", "dense") if tier == "thorough" else ("identity", "scaled", "diag")):
         for ckind in ("linear", "sphere"):
             for haus in (True, False):
                 for conv in ("plain", "aux"):
